@@ -375,3 +375,53 @@ def unit_rule_results(a: "UfuncAnchors", name: str):
             yield n, "reset", norm(n.value)
         else:
             yield n, "other", norm(n.value)
+
+
+class RefusalModel:
+    """The refusals the binary branch of __array_ufunc__ makes before it evaluates the ufunc, as guard chains: for
+    every `raise` that precedes the evaluation, the conjunction of the branch tests (with polarity) leading to it.
+    A chain is *decided* for abstract operands by folding its tests (engine.dtable.Folder); chains whose tests read
+    anything the abstract records do not model (dimension comparison by method call, array contents) are left out -
+    they belong to other rules."""
+
+    def __init__(self, a: "UfuncAnchors"):
+        self.a = a
+        self.chains = []
+        stop = a.eval_stmt
+
+        def walk(stmts, conds):
+            for st in stmts:
+                if st is stop:
+                    return True
+                if isinstance(st, ast.Raise):
+                    self.chains.append((st, list(conds)))
+                elif isinstance(st, ast.If):
+                    if walk(st.body, conds + [(st.test, True)]):
+                        return True
+                    if walk(st.orelse, conds + [(st.test, False)]):
+                        return True
+            return False
+
+        walk(a.binary, [])
+        if not self.chains:
+            raise AnalysisError(f"{a.fn.where()}: no refusal found before the evaluation in the binary branch")
+
+    def refused(self, rule_name: str, u0, u1, globals_: dict):
+        """the raise statement that fires for operand units (u0, u1) under unit rule `rule_name`, or None"""
+        from engine.dtable import Folder, Tok
+
+        toks = globals_.setdefault("__rule_tokens__", {})
+        for n in ("_preserve_units", "_difference_units", "_comparison_unit", "_arctan2_unit", "_multiply_units", "_divide_units", "_power_unit", "_passthrough_unit"):
+            toks.setdefault(n, Tok(n))
+        env = {"u0": u0, "u1": u1, "unit_operator": toks[rule_name], "ufunc": Tok("ufunc")}
+        env["offset"] = None if (u0.attrs["base_offset"] == 0.0 and u1.attrs["base_offset"] == 0.0) else 1.0
+        g = {k: v for k, v in globals_.items() if k != "__rule_tokens__"}
+        g.update(toks)
+        f = Folder(self.a.mod, self.a.fn, env, g)
+        for st, conds in self.chains:
+            try:
+                if all(f.truth(t) == pol for t, pol in conds):
+                    return st
+            except AnalysisError:
+                continue
+        return None
